@@ -125,6 +125,12 @@ func (g *GcsEmu) Handler(w http.ResponseWriter, r *http.Request) {
 
 	switch r.Method {
 	case "DELETE":
+		if object == "" && !strings.HasSuffix(r.URL.Path, "/b/"+bucket) {
+			// Not a bucket URL (e.g. ".../b/bucket/o" or ".../b/bucket/o/"): an object delete without an object
+			// name must not be taken for a delete of the whole bucket.
+			g.gapiError(w, http.StatusBadRequest, "unrecognized request")
+			return
+		}
 		g.handleGcsDelete(ctx, w, bucket, object, conds)
 	case "GET":
 		if object == "" {
